@@ -66,6 +66,8 @@ def c05(tier, seed):
             res.violation(dict(rel.signature(rj), part=part), rj["replay"])
     rel.negative_control("C05", res, module="Trace_Cfg")
     rel.negative_control("C05p", res, module="Trace_CfgP")
+    from . import oracle
+    oracle.check("C05", tier, seed, res)
     res.cov["rule"] = ("episodes = random walks of the real engine over (a) a random / hand-written EBNF grammar of the "
                        "non-confusable fragment, (b) a random parametric grammar of the shapes in docs/parametric.md "
                        "(permutation, at-least-once, bounded counters, bounded a*b*, pick k of n, countdown with "
